@@ -1,8 +1,10 @@
+#![allow(dead_code)]
 // Conformance harness: drives the real fips204 library and records NDJSON traces that the
 // TLA+ trace specifications under /verif/spec/trace validate.
 mod api;
 mod util;
 mod fcases;
+mod refmath;
 
 use util::Args;
 
@@ -12,7 +14,7 @@ fn main() {
     if a.len() < 2 { eprintln!("usage: drive <subcommand> key=value ..."); std::process::exit(2); }
     let args = Args::parse(&a[2..]);
     match a[1].as_str() {
-        "fcases" => fcases::run(&args),
+        "keygen" | "sign" | "verify" | "replayf" => fcases::run(a[1].as_str(), &args),
         other => { eprintln!("unknown subcommand {}", other); std::process::exit(2); }
     }
 }
